@@ -246,6 +246,18 @@ def _hist(case, ctx):
                 nact = len(listed)
                 acts = [objs.action(listed[ai % nact]) for ai in case['actions']]
             else:
+                if case['seed'] % 4 == 3:
+                    # the same configuration with its action list in the opposite order: index i is the i-th action *as listed*
+                    import copy
+                    from gym_gridverse.envs.yaml.factory import factory_env_from_data
+                    data2 = copy.deepcopy(data)
+                    data2['action_space'] = listed[::-1]
+                    env = guarded(ctx, 'build (action list reversed)', factory_env_from_data, data2)
+                    env.set_seed(case['seed'])
+                    guarded(ctx, 'reset', env.reset)
+                    sd = objs.canon_state(env.state)
+                    listed = listed[::-1]
+                    acts = [objs.action(listed[ai % nact]) for ai in case['actions']]
                 genv = GymEnvironment(OuterEnv(env, observation_representation=make_observation_representation('default', env.observation_space)))
         for i, a in enumerate(acts):
             if via_gym:
